@@ -360,6 +360,21 @@ func (c *ctl) control(done <-chan struct{}) (stalled bool) {
 				c.scriptAt++
 				c.mu.Unlock()
 				continue
+			case "settle":
+				// let everything that can run without a further release come to rest (a layout target
+				// is written between the copy's source requests)
+				c.scriptAt++
+				c.mu.Unlock()
+				for quiet := 0; quiet < 6; {
+					if ch, fin := c.waitChange(done, 2*time.Millisecond); fin {
+						return false
+					} else if ch {
+						quiet = 0
+					} else {
+						quiet++
+					}
+				}
+				continue
 			}
 			for _, p := range live {
 				if p.side == st.Host && p.class == st.Class && p.n == st.N {
@@ -547,7 +562,7 @@ func runScenario(sc *scenario, scratch string) (*vtrace.Trace, error) {
 	}
 	snapEv(vtrace.Event{"ev": "init"})
 
-	faultfree := len(sc.Faults) == 0 && sc.Cancel == nil && sc.Death == nil
+	faultfree := len(sc.Faults) == 0 && sc.Cancel == nil && sc.Death == nil && sc.CancelCB == nil
 	for _, st := range sc.Script {
 		if st.Op != "rel" {
 			faultfree = false
@@ -614,10 +629,23 @@ func runScenario(sc *scenario, scratch string) (*vtrace.Trace, error) {
 	if len(plats) > 0 {
 		opts = append(opts, regclient.ImageWithPlatforms(strings.Split(sc.Opts.Platforms, ",")))
 	}
-	if w.tgtIsDir {
+	if w.tgtIsDir || sc.CancelCB != nil {
 		// the progress callback runs inside the copy's goroutines: further observation points of a
-		// layout target (the only ones when the source is a layout as well)
+		// layout target (the only ones when the source is a layout as well), and a place to cancel
+		// "after the blob has been fetched, before it is stored"
+		cbSeen := 0
 		opts = append(opts, regclient.ImageWithCallback(func(kind types.CallbackKind, instance string, state types.CallbackState, cur, total int64) {
+			if sc.CancelCB != nil && kind == types.CallbackBlob && state == types.CallbackStarted && w.name(instance) == sc.CancelCB.N {
+				c.mu.Lock()
+				cbSeen++
+				if cbSeen == sc.CancelCB.Occ {
+					c.doCancelLocked(nil)
+				}
+				c.mu.Unlock()
+			}
+			if !w.tgtIsDir {
+				return
+			}
 			if state == types.CallbackFinished || state == types.CallbackSkipped || state == types.CallbackStarted {
 				c.mu.Lock()
 				dead := c.dead
